@@ -490,6 +490,18 @@ class SVG:
     def resolve_url(self, url, el_tag):
         return self.xpath_one(_xpath_for_url(url, el_tag))
 
+    def _check_use_acyclic(self, el, el_by_id, active_ids, done_ids):
+        for use_el in self.xpath("descendant-or-self::svg:use", el=el):
+            ref = use_el.attrib.get(_xlink_href_attr_name(), "")[1:]
+            if ref in active_ids:
+                raise ValueError(f"<use> of '{ref}' is part of a reference cycle")
+            if ref in done_ids or ref not in el_by_id:
+                continue
+            self._check_use_acyclic(
+                el_by_id[ref], el_by_id, active_ids | {ref}, done_ids
+            )
+            done_ids.add(ref)
+
     def _resolve_use(self, scope_el):
         attrib_not_copied = {
             "x",
@@ -502,6 +514,9 @@ class SVG:
 
         # capture elements by id so even if we change it they remain stable
         el_by_id = {el.attrib["id"]: el for el in self.xpath(".//svg:*[@id]")}
+
+        # a <use> that (indirectly) instantiates itself would expand forever
+        self._check_use_acyclic(scope_el, el_by_id, frozenset(), set())
 
         while True:
             swaps = []
